@@ -1,0 +1,528 @@
+//! TLS front end, SNI/ALPN demultiplexer, rules, SOCKS5 client, metrics, shutdown, ICMP and UDP
+//! pipe runners — plain-data wrappers around the real implementations.
+
+use crate::core::Core;
+use crate::tls_demultiplexer::TlsDemux;
+use crate::tls_listener::{TlsAcceptor, TlsListener};
+use crate::verif::ctx::Ctx;
+use crate::verif::pipes::test_id;
+use crate::verif::pure::UdpIn;
+use crate::verif::tunnel::{AuthView, Chan, Proto};
+use crate::{
+    datagram_pipe, downstream, forwarder, http1_codec, log_utils, pipe, settings, shutdown,
+    socks5_client, socks5_forwarder, udp_forwarder, udp_pipe,
+};
+use async_trait::async_trait;
+use bytes::{Bytes, BytesMut};
+use std::borrow::Cow;
+use std::io;
+use std::net::{IpAddr, SocketAddr};
+use std::time::Duration;
+use tokio::io::{AsyncRead, AsyncWrite};
+use tokio::net::TcpStream;
+
+// ---------------------------------------------------------------------------------------
+// TLS front end
+// ---------------------------------------------------------------------------------------
+
+#[derive(Debug, Clone, PartialEq, Eq)]
+pub enum CrExtraction {
+    Found(Vec<u8>),
+    NeedMoreData,
+    NotFound,
+}
+
+pub fn extract_client_random(data: &[u8]) -> CrExtraction {
+    match TlsListener::verif_extract_client_random(data) {
+        (0, Some(x)) => CrExtraction::Found(x),
+        (1, _) => CrExtraction::NeedMoreData,
+        _ => CrExtraction::NotFound,
+    }
+}
+
+pub struct Acceptor(TlsAcceptor);
+
+/// The real `TlsListener::listen`: peek the ClientHello, wrap the stream, parse the hello
+pub async fn tls_listen(stream: TcpStream) -> io::Result<Acceptor> {
+    TlsListener::new().listen(stream).await.map(Acceptor)
+}
+
+impl Acceptor {
+    pub fn client_random(&self) -> Option<Vec<u8>> {
+        self.0.client_random()
+    }
+    pub fn sni(&self) -> Option<String> {
+        self.0.sni()
+    }
+    pub fn alpn(&self) -> Vec<Vec<u8>> {
+        self.0.alpn()
+    }
+}
+
+/// The real `Core::on_new_tls_connection` for an accepted ClientHello: rules, SNI/ALPN
+/// demultiplexing, TLS accept, channel routing. Runs until the connection's handler returns.
+pub async fn tls_serve(
+    ctx: &Ctx,
+    acceptor: Acceptor,
+    client_ip: IpAddr,
+    id: u64,
+) -> Result<(), String> {
+    Core::verif_on_new_tls_connection(ctx.context.clone(), acceptor.0, client_ip, test_id(id))
+        .await
+        .map_err(|(_, m)| m)
+}
+
+/// The real `Core::evaluate_connection_rules`
+pub fn evaluate_connection_rules(
+    ctx: &Ctx,
+    client_ip: Option<IpAddr>,
+    client_random: Option<&[u8]>,
+) -> Result<(), String> {
+    Core::verif_evaluate_connection_rules(&ctx.context, client_ip, client_random, &test_id(3))
+}
+
+// ---------------------------------------------------------------------------------------
+// SNI / ALPN demultiplexer
+// ---------------------------------------------------------------------------------------
+
+#[derive(Debug, Clone, PartialEq, Eq)]
+pub struct MetaView {
+    pub sni: String,
+    pub protocol: Proto,
+    pub channel: Chan,
+    pub cert_chain_der: Vec<Vec<u8>>,
+    pub cert_chain_path: String,
+    pub sni_auth_creds: Option<String>,
+    pub debug: String,
+}
+
+fn meta_view(m: crate::tls_demultiplexer::ConnectionMeta) -> MetaView {
+    let debug = format!("{:?}", m);
+    MetaView {
+        sni: m.sni,
+        protocol: m.protocol.into(),
+        channel: m.channel.into(),
+        cert_chain_der: m.cert_chain.iter().map(|c| c.0.clone()).collect(),
+        cert_chain_path: m.cert_chain_path,
+        sni_auth_creds: m.sni_auth_creds,
+        debug,
+    }
+}
+
+/// Selection through the live demultiplexer of the context (the one reloads replace)
+pub fn tls_select(ctx: &Ctx, alpn: &[Vec<u8>], sni: &str) -> Result<MetaView, String> {
+    let demux = ctx.context.verif_tls_demux();
+    let guard = demux.read().unwrap();
+    guard
+        .select(alpn.iter().map(Vec::as_slice), sni.to_string())
+        .map(meta_view)
+}
+
+pub struct Demux(TlsDemux);
+
+impl Demux {
+    pub fn new(
+        settings: &settings::Settings,
+        hosts: &settings::TlsHostsSettings,
+    ) -> Result<Self, String> {
+        TlsDemux::new(settings, hosts)
+            .map(Demux)
+            .map_err(|e| e.to_string())
+    }
+
+    pub fn select(&self, alpn: &[Vec<u8>], sni: &str) -> Result<MetaView, String> {
+        self.0
+            .select(alpn.iter().map(Vec::as_slice), sni.to_string())
+            .map(meta_view)
+    }
+}
+
+// ---------------------------------------------------------------------------------------
+// HTTP/1.1 head parsers
+// ---------------------------------------------------------------------------------------
+
+pub enum H1Decode<T> {
+    Partial,
+    Complete(T, Bytes),
+}
+
+pub fn h1_decode_request(buf: &[u8]) -> io::Result<H1Decode<http::request::Parts>> {
+    match http1_codec::decode_request(
+        BytesMut::from(buf),
+        http1_codec::MAX_HEADERS_NUM,
+        http1_codec::MAX_RAW_HEADERS_SIZE,
+    )? {
+        http1_codec::DecodeStatus::Partial(_) => Ok(H1Decode::Partial),
+        http1_codec::DecodeStatus::Complete(h, tail) => Ok(H1Decode::Complete(h, tail.freeze())),
+    }
+}
+
+pub fn h1_decode_response(buf: &[u8]) -> io::Result<H1Decode<http::response::Parts>> {
+    match http1_codec::decode_response(
+        BytesMut::from(buf),
+        http1_codec::MAX_HEADERS_NUM,
+        http1_codec::MAX_RAW_HEADERS_SIZE,
+    )? {
+        http1_codec::DecodeStatus::Partial(_) => Ok(H1Decode::Partial),
+        http1_codec::DecodeStatus::Complete(h, tail) => Ok(H1Decode::Complete(h, tail.freeze())),
+    }
+}
+
+pub fn h1_encode_request(r: &http::request::Parts) -> Bytes {
+    http1_codec::encode_request(r)
+}
+
+// ---------------------------------------------------------------------------------------
+// SOCKS5 client
+// ---------------------------------------------------------------------------------------
+
+#[derive(Debug, Clone, PartialEq, Eq)]
+pub enum S5ExtVal {
+    Domain(String),
+    ClientAddress(IpAddr),
+    UserAgent(String),
+    BasicProxyAuth(String),
+    SniAuth,
+}
+
+#[derive(Debug, Clone, PartialEq, Eq)]
+pub enum S5Auth {
+    UsernamePassword(String, String),
+    Extended(Vec<S5ExtVal>),
+}
+
+#[derive(Debug, Clone, PartialEq, Eq)]
+pub enum S5Request {
+    ConnectIp(SocketAddr),
+    ConnectDomain(String, u16),
+    UdpAssociate,
+}
+
+#[derive(Debug)]
+pub enum S5Error {
+    Io(io::Error),
+    Protocol(String),
+    Authentication(String),
+}
+
+pub struct S5UdpAssociation<IO>(socks5_client::UdpAssociation<IO>);
+
+pub enum S5Result<IO> {
+    TcpConnection(IO),
+    UdpAssociation(S5UdpAssociation<IO>),
+    /// reply code name as the client classifies it
+    Failure(String),
+}
+
+fn s5_auth_to_real(a: &S5Auth) -> socks5_client::Authentication<'static> {
+    match a {
+        S5Auth::UsernamePassword(u, p) => socks5_client::Authentication::UsernamePassword(
+            Cow::Owned(u.clone()),
+            Cow::Owned(p.clone()),
+        ),
+        S5Auth::Extended(v) => socks5_client::Authentication::Extended(
+            v.iter()
+                .map(|x| match x {
+                    S5ExtVal::Domain(x) => {
+                        socks5_client::ExtendedAuthenticationValue::Domain(Cow::Owned(x.clone()))
+                    }
+                    S5ExtVal::ClientAddress(x) => {
+                        socks5_client::ExtendedAuthenticationValue::ClientAddress(*x)
+                    }
+                    S5ExtVal::UserAgent(x) => {
+                        socks5_client::ExtendedAuthenticationValue::UserAgent(Cow::Owned(x.clone()))
+                    }
+                    S5ExtVal::BasicProxyAuth(x) => {
+                        socks5_client::ExtendedAuthenticationValue::BasicProxyAuth(Cow::Owned(
+                            x.clone(),
+                        ))
+                    }
+                    S5ExtVal::SniAuth => socks5_client::ExtendedAuthenticationValue::SniAuth,
+                })
+                .collect(),
+        ),
+    }
+}
+
+fn s5_auth_from_real(a: socks5_client::Authentication<'_>) -> S5Auth {
+    match a {
+        socks5_client::Authentication::UsernamePassword(u, p) => {
+            S5Auth::UsernamePassword(u.to_string(), p.to_string())
+        }
+        socks5_client::Authentication::Extended(v) => S5Auth::Extended(
+            v.into_iter()
+                .map(|x| match x {
+                    socks5_client::ExtendedAuthenticationValue::Domain(x) => {
+                        S5ExtVal::Domain(x.to_string())
+                    }
+                    socks5_client::ExtendedAuthenticationValue::ClientAddress(x) => {
+                        S5ExtVal::ClientAddress(x)
+                    }
+                    socks5_client::ExtendedAuthenticationValue::UserAgent(x) => {
+                        S5ExtVal::UserAgent(x.to_string())
+                    }
+                    socks5_client::ExtendedAuthenticationValue::BasicProxyAuth(x) => {
+                        S5ExtVal::BasicProxyAuth(x.to_string())
+                    }
+                    socks5_client::ExtendedAuthenticationValue::SniAuth => S5ExtVal::SniAuth,
+                })
+                .collect(),
+        ),
+    }
+}
+
+/// The real `socks5_forwarder::make_auth` / `make_extended_auth`
+pub fn socks5_make_auth(
+    auth: &AuthView,
+    extended: Option<(&str, IpAddr, Option<&str>)>,
+) -> Result<S5Auth, String> {
+    match extended {
+        None => socks5_forwarder::verif_make_auth(auth.to_real()).map(s5_auth_from_real),
+        Some((domain, addr, ua)) => {
+            socks5_forwarder::verif_make_extended_auth(auth.to_real(), domain, &addr, ua)
+                .map(s5_auth_from_real)
+        }
+    }
+}
+
+/// The real `socks5_client::connect` over any duplex stream
+pub async fn socks5_connect<IO>(
+    io: IO,
+    auth: Option<S5Auth>,
+    request: S5Request,
+) -> Result<S5Result<IO>, S5Error>
+where
+    IO: AsyncRead + AsyncWrite + Send + Unpin,
+{
+    let auth = auth.as_ref().map(s5_auth_to_real);
+    let request = match &request {
+        S5Request::ConnectIp(a) => {
+            socks5_client::Request::Connect(socks5_client::Address::IpAddress(a.ip()), a.port())
+        }
+        S5Request::ConnectDomain(d, p) => socks5_client::Request::Connect(
+            socks5_client::Address::DomainName(Cow::Borrowed(d.as_str())),
+            *p,
+        ),
+        S5Request::UdpAssociate => socks5_client::Request::UdpAssociate,
+    };
+    match socks5_client::connect(io, auth, request).await {
+        Ok(socks5_client::ConnectResult::TcpConnection(io)) => Ok(S5Result::TcpConnection(io)),
+        Ok(socks5_client::ConnectResult::UdpAssociation(x)) => {
+            Ok(S5Result::UdpAssociation(S5UdpAssociation(x)))
+        }
+        Ok(socks5_client::ConnectResult::Failure(code)) => {
+            Ok(S5Result::Failure(format!("{:?}", code)))
+        }
+        Err(socks5_client::Error::Io(e)) => Err(S5Error::Io(e)),
+        Err(socks5_client::Error::Protocol(e)) => Err(S5Error::Protocol(e)),
+        Err(socks5_client::Error::Authentication(e)) => Err(S5Error::Authentication(e)),
+    }
+}
+
+impl<IO> S5UdpAssociation<IO> {
+    pub fn local_addr(&self) -> io::Result<SocketAddr> {
+        self.0.get_ref().local_addr()
+    }
+
+    pub async fn send_to(&self, data: &[u8], destination: SocketAddr) -> Result<(), String> {
+        self.0
+            .send_to(data, destination)
+            .await
+            .map_err(|e| format!("{:?}", e))
+    }
+
+    pub async fn recv_from(&self, data: &mut [u8]) -> Result<(usize, SocketAddr), String> {
+        self.0.recv_from(data).await.map_err(|e| format!("{:?}", e))
+    }
+}
+
+// ---------------------------------------------------------------------------------------
+// Metrics
+// ---------------------------------------------------------------------------------------
+
+#[derive(Debug, Clone, PartialEq, Eq)]
+pub struct MetricsSnapshot {
+    /// client_sessions for (HTTP1, HTTP2, HTTP3)
+    pub sessions: [i64; 3],
+    /// (inbound, outbound) traffic for (HTTP1, HTTP2, HTTP3)
+    pub traffic: [(u64, u64); 3],
+    pub outbound_tcp: i64,
+    pub outbound_udp: i64,
+}
+
+pub fn metrics_snapshot(ctx: &Ctx) -> MetricsSnapshot {
+    use crate::tls_demultiplexer::Protocol;
+    let m = &ctx.context.metrics;
+    let (tcp, udp) = m.verif_outbound_sockets();
+    MetricsSnapshot {
+        sessions: [
+            m.verif_client_sessions(Protocol::Http1),
+            m.verif_client_sessions(Protocol::Http2),
+            m.verif_client_sessions(Protocol::Http3),
+        ],
+        traffic: [
+            m.verif_traffic(Protocol::Http1),
+            m.verif_traffic(Protocol::Http2),
+            m.verif_traffic(Protocol::Http3),
+        ],
+        outbound_tcp: tcp,
+        outbound_udp: udp,
+    }
+}
+
+/// (content type, text) exactly as the metrics listener would serve it
+pub fn metrics_collect(ctx: &Ctx) -> (String, String) {
+    let (t, b) = ctx.context.metrics.verif_collect();
+    (t, String::from_utf8_lossy(&b).to_string())
+}
+
+// ---------------------------------------------------------------------------------------
+// Shutdown
+// ---------------------------------------------------------------------------------------
+
+pub struct ShutdownNotification(shutdown::Notification);
+pub struct ShutdownGuard(#[allow(dead_code)] shutdown::CompletionGuard);
+
+impl ShutdownNotification {
+    /// `Ok(())` = shutdown submitted, `Err` = the channel was closed
+    pub async fn wait(&mut self) -> Result<(), String> {
+        self.0.wait().await.map_err(|e| e.to_string())
+    }
+}
+
+pub fn shutdown_notification(s: &shutdown::Shutdown) -> ShutdownNotification {
+    ShutdownNotification(s.notification_handler())
+}
+
+pub fn shutdown_guard(s: &shutdown::Shutdown) -> Option<ShutdownGuard> {
+    s.completion_guard().map(ShutdownGuard)
+}
+
+// ---------------------------------------------------------------------------------------
+// ICMP forwarder
+// ---------------------------------------------------------------------------------------
+
+/// (reply waiters, deadline entries) of the context's ICMP forwarder
+pub fn icmp_table_sizes(ctx: &Ctx) -> Option<(usize, usize)> {
+    ctx.context
+        .icmp_forwarder
+        .as_ref()
+        .map(|f| f.verif_table_sizes())
+}
+
+/// The real `IcmpForwarder::listen` (what `Core::listen_icmp` runs)
+pub async fn icmp_listen(ctx: &Ctx) -> io::Result<()> {
+    match ctx.context.icmp_forwarder.clone() {
+        None => Ok(()),
+        Some(f) => f.listen().await,
+    }
+}
+
+// ---------------------------------------------------------------------------------------
+// UDP pipe
+// ---------------------------------------------------------------------------------------
+
+/// A datagram going back to the client
+#[derive(Debug, Clone, PartialEq, Eq)]
+pub struct UdpOut {
+    pub source: SocketAddr,
+    pub destination: SocketAddr,
+    pub payload: Bytes,
+}
+
+#[async_trait]
+pub trait VUdpSource: Send {
+    /// Next datagram from the client; `Err` ends the multiplexer (client closed the stream)
+    async fn read(&mut self) -> io::Result<UdpIn>;
+}
+
+#[async_trait]
+pub trait VUdpSink: Send {
+    /// `Ok(true)` = sent, `Ok(false)` = dropped
+    async fn write(&mut self, datagram: UdpOut) -> io::Result<bool>;
+}
+
+struct UdpSourceFromV(Box<dyn VUdpSource>, log_utils::IdChain<u64>);
+struct UdpSinkFromV(Box<dyn VUdpSink>);
+
+#[async_trait]
+impl datagram_pipe::Source for UdpSourceFromV {
+    type Output = downstream::UdpDatagram;
+
+    fn id(&self) -> log_utils::IdChain<u64> {
+        self.1.clone()
+    }
+
+    async fn read(&mut self) -> io::Result<downstream::UdpDatagram> {
+        let d = self.0.read().await?;
+        Ok(downstream::UdpDatagram {
+            meta: downstream::UdpDatagramMeta {
+                source: d.source,
+                destination: d.destination,
+                app_name: d.app_name,
+            },
+            payload: d.payload,
+        })
+    }
+}
+
+#[async_trait]
+impl datagram_pipe::Sink for UdpSinkFromV {
+    type Input = forwarder::UdpDatagram;
+
+    async fn write(&mut self, d: forwarder::UdpDatagram) -> io::Result<datagram_pipe::SendStatus> {
+        let sent = self
+            .0
+            .write(UdpOut {
+                source: d.meta.source,
+                destination: d.meta.destination,
+                payload: d.payload,
+            })
+            .await?;
+        Ok(if sent {
+            datagram_pipe::SendStatus::Sent
+        } else {
+            datagram_pipe::SendStatus::Dropped
+        })
+    }
+}
+
+/// The real `udp_pipe::DuplexPipe` wired as `Tunnel::on_datagram_mux_request` wires it.
+/// `real_forwarder` = true: the multiplexer comes from `Core::make_forwarder` (direct or SOCKS5
+/// per the settings); false: always the direct forwarder's `udp_forwarder::make_multiplexer`.
+pub async fn run_udp_pipe<F>(
+    ctx: &Ctx,
+    client: (Box<dyn VUdpSource>, Box<dyn VUdpSink>),
+    timeout: Duration,
+    real_forwarder: Option<(IpAddr, Option<AuthView>)>,
+    metrics: F,
+) -> io::Result<()>
+where
+    F: Fn(bool, usize) + Send + Sync + Clone,
+{
+    use datagram_pipe::DuplexPipe as _;
+    let id = test_id(11);
+    let mux = match real_forwarder {
+        None => udp_forwarder::make_multiplexer(ctx.context.clone(), id.clone())?,
+        Some((client_address, auth)) => Core::verif_make_forwarder(ctx.context.clone())
+            .make_udp_datagram_multiplexer(
+                id.clone(),
+                forwarder::UdpMultiplexerMeta {
+                    client_address,
+                    auth: auth.map(|a| a.to_real()),
+                    tls_domain: "udp.verif.test".to_string(),
+                    user_agent: None,
+                },
+            )?,
+    };
+    let mut p = udp_pipe::DuplexPipe::new(
+        (
+            Box::new(UdpSourceFromV(client.0, id)),
+            Box::new(UdpSinkFromV(client.1)),
+        ),
+        mux,
+        move |dir, n| metrics(dir == pipe::SimplexDirection::Outgoing, n),
+        timeout,
+    );
+    p.exchange().await
+}
